@@ -54,7 +54,8 @@ def make_repo(d):
 def snapshot(d):
     return {"head": git(d, "rev-parse", "HEAD"), "branch": git(d, "rev-parse", "--abbrev-ref", "HEAD"),
             "branch_sha": git(d, "rev-parse", "work"), "status": git(d, "status", "--porcelain", "--untracked-files=all"),
-            "files": sorted(os.listdir(d))}
+            "files": sorted(os.listdir(d)),
+            "content": {f: open(os.path.join(d, f), "rb").read().decode("latin-1") for f in sorted(os.listdir(d)) if os.path.isfile(os.path.join(d, f))}}
 
 
 def run_baseline(repo, argv, plan, reset_plan, tmpdir, shimdir):
@@ -282,6 +283,40 @@ def run(R, replay=None):
             R.violations.append({"what": "precondition '%s': expected refusal with exit status 2 and an untouched repository" % name,
                                  "input": {"precondition": name, "argv": argv}, "observed": {"exit": r["exit"], "exception": r["exception"],
                                                                                              "changed": after != before}, "signature": None})
+        shutil.rmtree(repo, ignore_errors=True)
+        shutil.rmtree(tmpd, ignore_errors=True)
+    # ---- files git does not track survive the two hard resets (or the tool refuses to start)
+    def repo_with_removed_file(d):
+        os.makedirs(d)
+        git(d, "init", "-q", "-b", "work")
+        open(os.path.join(d, "a.py"), "w").write("assert x\n")
+        open(os.path.join(d, "old.py"), "w").write("import pickle\n")
+        git(d, "add", ".")
+        git(d, "commit", "-q", "-m", "one")
+        git(d, "rm", "-q", "old.py")
+        open(os.path.join(d, "b.py"), "w").write("x = 1\n")
+        git(d, "add", ".")
+        git(d, "commit", "-q", "-m", "two")
+    for name, fn, ignored in (("untracked-scratch-file", "scratch.txt", False), ("untracked-file-tracked-in-parent", "old.py", False),
+                              ("ignored-file", "notes.log", True), ("ignored-file-tracked-in-parent", "old.py", True)):
+        k += 1
+        repo = os.path.join(base, "u%d" % k)
+        repo_with_removed_file(repo)
+        if ignored:
+            open(os.path.join(repo, ".git", "info", "exclude"), "a").write(fn + "\n")
+        open(os.path.join(repo, fn), "w").write("# not under version control: %s\n" % name)
+        before = snapshot(repo)
+        tmpd = os.path.join(base, "ut%d" % k)
+        os.makedirs(tmpd)
+        r = run_baseline(repo, ["a.py", "b.py"], ("real", "real"), ("ok", "ok", "ok"), tmpd, shimdir)
+        after = snapshot(repo)
+        R.case(("untracked", name), sample={"scenario": name, "exit": r["exit"], "exception": r["exception"], "file_survives": after["content"].get(fn) == before["content"].get(fn)})
+        R.count("untracked")
+        if after["content"].get(fn) != before["content"].get(fn) or after["head"] != before["head"] or after["status"] != before["status"]:
+            R.violations.append({"what": "a file git does not track (%s) is %s by bandit-baseline" % (
+                name, "deleted" if fn not in after["content"] else "changed"), "input": {"scenario": name, "file": fn},
+                "observed": {"exit": r["exit"], "status_after": after["status"], "content_after": after["content"].get(fn)},
+                "signature": None})
         shutil.rmtree(repo, ignore_errors=True)
         shutil.rmtree(tmpd, ignore_errors=True)
     R.disagreements_checked = len(cases)
